@@ -81,6 +81,8 @@ class Flow(object):
                 # a name under a nonlocal declaration rebinds the variable of
                 # an enclosing function: it does not hide it from this scope
                 self.scope.locals.add(name.name)
+            else:
+                self.scope.top._nonlocal_binds.append(name)
             insert_loc(self._names, name)
 
     @property
@@ -226,6 +228,7 @@ class SourceScope(Scope):
         self._star_imports = []
         self._attr_assigns = []
         self._global_names = {}
+        self._nonlocal_binds = []  # type: list[Name]
         # loop back edges being resolved, innermost last, and the memo
         # computations in progress: (depth of _resolving at their start,
         # loops they found unresolved, loops they reached)
@@ -333,6 +336,33 @@ class SourceScope(Scope):
     def add_global(self, name):
         # type: (Name) -> None
         self._global_names[name.name] = name
+
+    def closure_names(self, scope, loc):
+        # type: (Scope, loc_t) -> dict[str, Name]
+        # The variables of the function `scope` that nested functions bind
+        # through a nonlocal declaration: defined once such a function has
+        # run, which may be before the function's own, textually later,
+        # assignment. Offered from the nested definition on.
+        while isinstance(scope, CompScope):
+            scope = scope.parent
+        try:
+            owners = self._closure_names
+        except AttributeError:
+            owners = self._closure_names = {}  # type: ignore[attr-defined]
+            for name in self._nonlocal_binds:
+                child = name.scope
+                owner = child.parent
+                while owner is not self and (
+                        not isinstance(owner, FuncScope)
+                        or name.name in owner.nonlocals
+                        or name.name not in owner.locals):
+                    child, owner = owner, owner.parent
+                if owner is not self:
+                    since = getattr(child, 'declared_at', (0, 0))
+                    owners.setdefault(owner, []).append((since, name))
+        return {name.name: name
+                for since, name in owners.get(scope, ())
+                if since <= loc}
 
     def add_flow(self, flow):
         # type: (Flow) -> Flow
